@@ -287,9 +287,9 @@ pub fn build(tier: &str, seed: u64) -> Check {
     spaces.push(space_family::<EL>(ords, 1));
     spaces.push(space_family::<AM>(ords, 1));
     spaces.push(space_family::<WU>(ords, 1));
-    // orders whose rows are longer than a 64-bit word (column stride > 64) and orders on both
-    // sides of 64 / 128
-    static ORD_BIG: [usize; 6] = [64, 65, 66, 100, 129, 130];
+    // orders whose rows are longer than a 64-bit word (column stride > 64), orders on both
+    // sides of 64 / 128, and orders with degrees above 255 (star, complete)
+    static ORD_BIG: [usize; 9] = [64, 65, 66, 100, 129, 130, 257, 258, 300];
     spaces.push(space_family::<AX>(&ORD_BIG, 1));
     spaces.push(space_family::<EL>(&ORD_BIG, 1));
     spaces.push(space_family::<AM>(&ORD_BIG, 1));
@@ -299,7 +299,7 @@ pub fn build(tier: &str, seed: u64) -> Check {
         "C02",
         tier,
         seed,
-        "bounded-exhaustive: every digraph on 0..n (n ≤ 4 quick, ≤ 5 thorough) is built in each of the five representations through the public API and every query of C02 is compared with its set definition on the reference (V, A, w); AdjacencyMap additionally over every vertex set of small id pools (non-contiguous ids) with every arc set; structured families at orders 8..65 and 64, 65, 66, 100, 129, 130 (rows longer than one 64-bit word) for word boundaries and thread chunking. A case is non-trivial when the digraph has at least one arc and a vertex with indegree != outdegree (sparse space: additionally non-contiguous ids; family space: ragged last chunk).",
+        "bounded-exhaustive: every digraph on 0..n (n ≤ 4 quick, ≤ 5 thorough) is built in each of the five representations through the public API and every query of C02 is compared with its set definition on the reference (V, A, w); AdjacencyMap additionally over every vertex set of small id pools (non-contiguous ids) with every arc set; structured families at orders 8..65 and 64, 65, 66, 100, 129, 130, 257, 258, 300 (rows longer than one 64-bit word; degrees above 255) for word boundaries and thread chunking. A case is non-trivial when the digraph has at least one arc and a vertex with indegree != outdegree (sparse space: additionally non-contiguous ids; family space: ragged last chunk).",
         &[
             "weights are 1 in this check (weights are exercised by C01/C03/C07)",
             "orders > 5 only through the listed families",
